@@ -85,6 +85,8 @@ def run_harness(job):
         mod = I.load_module(modname)
         fn = mod.ns[fname]
         eng = Engine(timeout_ms=opts["timeout_ms"], branch_timeout_ms=opts["branch_timeout_ms"], max_paths=opts["max_paths"])
+        eng.cvc5_sample = opts.get("cvc5_sample", 0.0)
+        eng.rng.seed(hash((modname, fname, tuple(map(tuple, initial or [])))) & 0xFFFFFFFF)
 
         def run_path(ctx):
             I.begin_path(ctx)
@@ -100,6 +102,7 @@ def run_harness(job):
         out["paths"] = res["paths"]
         out["aborted"] = res["aborted"]
         out["checks"] = [c.as_dict() for c in res["checks"]]
+        out["cvc5"] = dict(eng.cvc5_agree)
         out["covers"] = sorted(res["covers"])
         out["notes"] = sorted(set(res["notes"]))
     except OutsideSubset as exc:
@@ -121,6 +124,8 @@ def merge_results(first, more):
         r["checks"].extend(m["checks"])
         r["covers"] = sorted(set(r["covers"]) | set(m["covers"]))
         r["notes"] = sorted({tuple(n) for n in r["notes"]} | {tuple(n) for n in m["notes"]})
+        for k, v in (m.get("cvc5") or {}).items():
+            r.setdefault("cvc5", {})[k] = r.get("cvc5", {}).get(k, 0) + v
         r["paths"] += m["paths"]
         r["aborted"] += m["aborted"]
         r["secs"] += m["secs"]
@@ -217,6 +222,7 @@ def main(argv=None):
         "timeout_ms": 15000 if tier == "quick" else 90000,
         "branch_timeout_ms": 3000 if tier == "quick" else 10000,
         "max_paths": 30000 if tier == "quick" else 200000,
+        "cvc5_sample": 0.0 if tier == "quick" else 0.004,
     }
     try:
         jobs, meta = list_harnesses(prop)
@@ -457,6 +463,7 @@ def report(prop, tier, seed, t0, results, meta, args):
         "known_findings_hit": [k["id"] for (k, _, _) in known_hit],
         "bounded_stand_ins": meta["bounded"] + bounded_runs,
         "native_crosscheck_runs": cc_runs,
+        "cvc5_second_opinion_on_sampled_discharged_obligations": {k: sum((r.get("cvc5") or {}).get(k, 0) for r in results) for k in ("unsat", "unknown", "sat")},
         "samples": samples,
         "explanation": meta["explanation"]
         or "every obligation is a verification condition generated from the current source of /repo by symbolic execution of the real AST against sidecar contracts, discharged by an SMT solver for all inputs",
